@@ -15,6 +15,7 @@ def kv(line):
     return dict(x.split("=", 1) for x in line.split(" ") if "=" in x and not x.startswith(("path=", "iface=", "member=", "err=", "dest=", "sender=", "sig=", "type=", "flags=", "serial=", "rs=", "body=")))
 
 
+
 def dump_of(line, end):
     return line.split("dump=", 1)[1].split(end)[0]
 
@@ -79,6 +80,9 @@ def run(ctx):
             shapes["empty_body"] += 1
         if len(body) > 3:
             nontrivial.add(p)
+        if ki.get("getters") != km.get("getters"):
+            rep.violation("header getters on the freshly built message differ from what the setters set: %s\n impl %s\n want %s" % (p[:300], ki.get("getters"), km.get("getters")),
+                          {"input": p, "impl": i, "model": m})
         if ki["bytes"] != km["bytes"]:
             phase2.append((idx, "specmis", "spec1 " + ki["bytes"]))
         if dump_of(i, " copyserial=") != dump_of(m, " specvalid="):
@@ -103,7 +107,7 @@ def run(ctx):
     for (idx, kind, l), r in zip(spec_lines, sres):
         p, i, m = progs[idx], impl[idx], model[idx]
         if kind == "spec":
-            if not r.startswith("valid") or "reenc=same" not in r:
+            if not r.startswith("valid") or "reenc=same" not in r or int(r.split("total=")[1].split()[0]) * 2 != len(kv(i)["bytes"]):
                 rep.violation("a message built through the public API does not serialise to a valid D-Bus message per the specification: %s -> %s" % (p[:200], kv(i)["bytes"][:300]),
                               {"input": p, "impl": i, "spec": r})
         else:  # bytes differ from the model's encoder: is the implementation's output still the same abstract valid message?
